@@ -113,9 +113,12 @@ def _gen_case(case_seed, modes, delays_in_plain=True, plain_delay_p=0.15, far_p=
         prelude = r.choice(opts)
     if nonuniform and len(grid) >= 3 and any(abs((grid[i + 1] - grid[i]) - (grid[1] - grid[0])) > 1e-12 for i in range(len(grid) - 1)):
         kinds = kinds + ["nonuniform_grid"]
+    # model-edit history before the run: the Model is initialised, then un-initialised by declaring an unused parameter and
+    # initialised again (once or twice) - whatever initialisation rebuilds must be rebuilt, not appended to
+    reinit = seeds.rng(case_seed, "reinit").choice([0, 0, 0, 1, 2])
     return {"model": model, "grid": grid, "mode": mode, "safe": safe, "entry": entry, "vol": vol,
             "bseed": seeds.bioscrape_seed(case_seed, "run"), "script": script, "kinds": kinds, "stratum": stratum,
-            "prelude": prelude}
+            "prelude": prelude, "reinit": reinit}
 
 
 def fault_counters(case, raw, ref, stats):
@@ -152,6 +155,8 @@ def fault_counters(case, raw, ref, stats):
             stats["fired_late_delay"] = stats.get("fired_late_delay", 0) + 1
     if case.get("prelude"):
         stats["fired_prelude_" + case["prelude"]] = stats.get("fired_prelude_" + case["prelude"], 0) + 1
+    if case.get("reinit"):
+        stats["fired_reinitialised_model"] = stats.get("fired_reinitialised_model", 0) + 1
     if "nonuniform_grid" in case.get("kinds", []):
         stats["fired_nonuniform_grid"] = stats.get("fired_nonuniform_grid", 0) + 1
     if raw.get("script_used"):
@@ -191,6 +196,8 @@ def shrink(case):
     # prefer seeded over scripted
     if case.get("prelude"):
         yield dict(case, prelude=None)
+    if case.get("reinit"):
+        yield dict(case, reinit=case["reinit"] - 1)
     if case.get("script"):
         c = dict(case, script=[])
         yield c
